@@ -644,7 +644,7 @@ PROPS["C15"] = {
 _LINK = "Failsafe.Lemmas.ExecBodiesLink"
 _X = {
     "XExecution": ["exec_is_canceled", "exec_record_result", "exec_initialize_retry", "exec_cancel", "exec_copy_for_hedge", "exec_record",
-                   "exec_last_error", "exec_copy_with_result"],
+                   "exec_last_error", "exec_copy_with_result", "exec_is_canceled_flag", "exec_is_hedge", "exec_last_result"],
     "XRetry": ["retry_on_failure"], "XBase": ["base_post_execute"], "XCache": ["cache_get_key", "cache_pre_execute", "cache_post_execute"],
     "XFallback": ["fallback_apply"], "XBulkhead": ["bulkhead_pre_execute"], "XRetryLoop": ["retry_loop_iteration"],
     "XAdmit": ["breaker_pre_execute", "breaker_on_success", "breaker_on_failure", "limiter_apply"],
@@ -666,6 +666,8 @@ _extend("C08", ["XExecution", "XBulkhead", "XRetryLoop"])
 _extend("C10", ["XFallback", "XBase"])
 _extend("C11", ["XCache"])
 _extend("C15", ["XExecution"], link=False)
+_extend("C07", ["XExecution"], link=False)
+_extend("C09", ["XExecution"], link=False)
 _extend("C16", ["XRetry", "XCache", "XFallback", "XRetryLoop", "XAdmit"])
 _extend("C04", ["XAdmit", "XBase", "XBreaker", "XDelayable"])
 _extend("C03", ["XBreaker", "XDelayable"], link=False)
